@@ -408,6 +408,9 @@ func c03() int {
 	cov := st.coverage(sp, nsRule+"; postings are attributed to sends by running statement prefixes")
 	cov["sends_checked"] = int(sendsChecked)
 	rep.Assume = []string{"reference semantics of DESIGN.md Appendix A for oracle (f) and for the stated/available amount of (b),(d)"}
+	// the amount as a client states it, through the v1 / v2 routers and bulk (apivars.go)
+	apiCases, apiAccepted, apiRefused := apiAmounts(rep)
+	cov["api_amount_cases"], cov["api_amount_accepted"], cov["api_amount_refused"] = apiCases, apiAccepted, apiRefused
 	return rep.Finish(cov)
 }
 
